@@ -260,16 +260,27 @@ def _probe_member(make_wrapper, kind, name):
     return "raises"
 
 
-def accessor_rows():
+def accessor_names():
+    """kind -> the accessors listed in the table: native members exposing references + the wrapper's own non-mutators"""
     bodies = _method_bodies()
-    owners = _owners()
-    rows = []
+    out = {}
     for kind in ("list", "dict", "deque"):
         native = native_ref_accessors(kind)
         muts = set(wrappers.native_mutators(kind))
         own = [n for n in bodies[kind] if n not in muts and n not in SKIP and not n.startswith("_raise") and
                not (n.startswith("_") and not n.startswith("__")) and n not in ("__reduce__",)]
-        for name in sorted(set(native) | set(own)):
+        out[kind] = sorted(set(native) | set(own))
+    return out
+
+
+def accessor_rows():
+    bodies = _method_bodies()
+    owners = _owners()
+    rows = []
+    names = accessor_names()
+    for kind in ("list", "dict", "deque"):
+        native = native_ref_accessors(kind)
+        for name in names[kind]:
             overridden = name in bodies[kind]
             ast_mode = _ast_mode(bodies[kind][name], bodies[kind]) if overridden else ("raw" if name in native else "noRef")
             for owner in ("immutable-structure", "immutable-field"):
